@@ -585,7 +585,10 @@ def run_engine(out, tier, seed, prop, opts, ncases, oracles, tag="eng"):
     base = tempfile.mkdtemp(prefix=f"verifeng_{prop}_")
     try:
         cases = [gen_history(rng, i, base, opts) for i in range(ncases)]
-        for c in opts.get("corpus", []):
+        extra = list(opts.get("corpus", []))
+        for fn in opts.get("templates", []):
+            extra += [fn(rng) for _ in range(opts.get("ntemplates", 10) * (1 if tier == "quick" else 10))]
+        for c in extra:
             c = dict(c, idx=len(cases), root=str(Path(base) / f"c{len(cases)}" / "p"))
             cases.append(c)
         obs_all = run_impl_histories(cases, hashseed=opts.get("hashseed", seed % 7))
